@@ -2,7 +2,8 @@
 // stir::Array<1,int> / VectorWithOffset<int> / NumericVectorWithOffset (header-only code,
 // compiled here with AddressSanitizer + UBSan) and prints the observable state after every step.
 //
-//   c11_arrays exec <opsfile> <outfile>     line protocol (see lean/Driver/C11.lean)
+//   c11_arrays exec <opsfile> <outfile>     line protocol (see lean/Driver/C11.lean): 3 registers of Array<1,int>;
+//                                           storage operations and the whole arithmetic of the numeric classes
 //   c11_arrays nd <seed> <histories> <len> <outfile>   N-dim arrays (2..4), views and constructors vs reference maps (oracle)
 //
 // Every output line is flushed before the next operation runs, so that after a sanitizer
@@ -1904,6 +1905,74 @@ numvec_checks(vh::Rng& rng, int cases, FILE* out, NdStats& st)
     }
 }
 
+// move construction / swap of the 1-D classes: the target has the source's map, the source is left empty, and the
+// target stays valid after the source is destroyed
+static void
+move1d_checks(vh::Rng& rng, int cases, FILE* out, NdStats& st)
+{
+  for (int k = 0; k < cases; ++k)
+    {
+      ++st.steps;
+      ++g_checks;
+      const int lo = rng.range(-3, 3), n = rng.range(0, 5);
+      Array<1, int> x(lo, lo + n - 1);
+      for (int i = lo; i < lo + n; ++i)
+        x[i] = 10 + i;
+      if (n > 1 && rng.coin())
+        x.resize(lo + 1, lo + n - 1); // num + start in the middle of the allocation
+      const Ref rx = ref_from(x);
+      g_current = "1-D move of a vector with " + std::to_string(n) + " elements from " + std::to_string(lo);
+      std::string what, why;
+      const int kind = rng.range(0, 3);
+      if (kind == 0)
+        {
+          ++st.ops["move1d:Array<1>"];
+          Array<1, int>* t = new Array<1, int>(x);
+          Array<1, int> m(std::move(*t));
+          if (t->size() != 0 || t->begin() != t->end())
+            what = "moved-from Array<1> is not empty";
+          delete t;
+          if (what.empty() && (!check_ref(m, rx, why) || !(m == x)))
+            what = "move-constructed Array<1>: " + why;
+        }
+      else if (kind == 1)
+        {
+          ++st.ops["move1d:VectorWithOffset"];
+          VectorWithOffset<int>* t = new VectorWithOffset<int>(x);
+          VectorWithOffset<int> m(std::move(*t));
+          if (t->size() != 0)
+            what = "moved-from VectorWithOffset is not empty";
+          delete t;
+          if (what.empty() && !(m == x))
+            what = "move-constructed VectorWithOffset differs from the source";
+        }
+      else if (kind == 2)
+        {
+          ++st.ops["move1d:NumericVectorWithOffset"];
+          typedef NumericVectorWithOffset<int, int> NV;
+          NV* t = new NV(x);
+          NV m(std::move(*t));
+          if (t->size() != 0)
+            what = "moved-from NumericVectorWithOffset is not empty";
+          delete t;
+          if (what.empty() && !(m == x))
+            what = "move-constructed NumericVectorWithOffset differs from the source";
+        }
+      else
+        {
+          ++st.ops["move1d:swap"];
+          Array<1, int> y(x), z(lo - 1, lo + 1);
+          z.fill(4);
+          const Ref rz = ref_from(z);
+          swap(y, z);
+          if (!check_ref(y, rz, why) || !check_ref(z, rx, why))
+            what = "swap of two Array<1>: " + why;
+        }
+      if (!what.empty())
+        oracle_fail(out, st, 1, what, g_current);
+    }
+}
+
 // empty index ranges given to constructors: an array without elements equals every other array without elements of the same outer range
 static void
 empty_range_checks(vh::Rng& rng, int cases, FILE* out, NdStats& st)
@@ -2123,6 +2192,7 @@ main(int argc, char** argv)
       view_histories<4>(rng, histories / 4 + 1, out, st);
       view1d_checks(rng, histories, out, st);
       numvec_checks(rng, histories / 4 + 1, out, st);
+      move1d_checks(rng, histories / 2 + 1, out, st);
       empty_range_checks(rng, histories / 10 + 1, out, st);
       {
         long steps = 0;
